@@ -71,7 +71,9 @@ func (f *failingIter) IsOrdered() bool { return true }
 // kind 3: fast-path set operations on generated streams
 //
 // A stream is a list of chunks; chunk = (0 v...) values | (1 v...) values then an iterator
-// failure | (2) an error message on the source channel.
+// failure | (2) an error message on the source channel | (3 e...) a REAL
+// ConditionsFilteredTupleKeyIterator over tuples, e = 4*object + condition outcome (0 met, 1 not
+// met, 2 cannot be evaluated): the fast paths consume it with Head and Next.
 
 type chunk struct {
 	Kind int   `json:"k"`
@@ -152,7 +154,74 @@ func chunksOf(vals []int, k int) []chunk {
 	return cs
 }
 
+// condIter: the real condition filter over a static tuple-key iterator, mapped to object ids.
+func condIter(elems []int) storage.Iterator[string] {
+	var keys []*openfgav1.TupleKey
+	for i, e := range elems {
+		keys = append(keys, &openfgav1.TupleKey{Object: objName(e / 4), Relation: "r", User: fmt.Sprintf("user:u%d", i),
+			Condition: &openfgav1.RelationshipCondition{Name: fmt.Sprintf("c%d", e%4)}})
+	}
+	filtered := storage.NewConditionsFilteredTupleKeyIterator(storage.NewStaticTupleKeyIterator(keys),
+		func(t *openfgav1.TupleKey) (bool, error) {
+			switch t.GetCondition().GetName() {
+			case "c0":
+				return true, nil
+			case "c1":
+				return false, nil
+			}
+			return false, errInjected
+		})
+	return storage.WrapIterator(storage.ObjectIDKind, filtered)
+}
+
+// withConditions turns value chunks into condition-filtered chunks: the values pass, and elements
+// whose condition is not met / cannot be evaluated are mixed in (also chunks where nothing passes).
+func withConditions(r *rec.Rand, cs []chunk) []chunk {
+	var out []chunk
+	for _, c := range cs {
+		if c.Kind != 0 {
+			out = append(out, c)
+			continue
+		}
+		var el []int
+		extra := func() {
+			for r.Chance(1, 3) {
+				el = append(el, 4*r.Intn(40)+1+r.Intn(2))
+			}
+		}
+		extra()
+		for _, v := range c.Vals {
+			el = append(el, 4*v)
+			extra()
+		}
+		out = append(out, chunk{Kind: 3, Vals: el})
+	}
+	if r.Chance(1, 3) {
+		// a chunk in which nothing passes: not met and/or unevaluable only
+		var el []int
+		for n := r.Range(1, 3); n > 0; n-- {
+			el = append(el, 4*r.Intn(40)+1+r.Intn(2))
+		}
+		pos := r.Intn(len(out) + 1)
+		out = append(out[:pos], append([]chunk{{Kind: 3, Vals: el}}, out[pos:]...)...)
+	}
+	return out
+}
+
 func genFP(r *rec.Rand) fpCase {
+	if r.Chance(1, 5) {
+		// operands delivered by the real ConditionsFilteredTupleKeyIterator
+		c := fpCase{Kind: 3, Op: r.Intn(3)}
+		n := 2
+		if c.Op != 2 {
+			n = r.Range(1, 3)
+		}
+		universe := r.Range(3, 12)
+		for i := 0; i < n; i++ {
+			c.Streams = append(c.Streams, withConditions(r, genStream(r, universe, true, false)))
+		}
+		return c
+	}
 	if r.Chance(1, 6) {
 		// long operands in several chunks: the output crosses the batching threshold (100) several
 		// times; for a difference the subtracted stream runs dry early so that the base is drained
@@ -213,6 +282,12 @@ func runFP(w *rec.Writer, c fpCase) {
 			cvs = append(cvs, chunkV(ch))
 			names := make([]string, len(ch.Vals))
 			for j, v := range ch.Vals {
+				if ch.Kind == 3 {
+					if v%4 != 0 {
+						continue // filtered out: does not take part in the order
+					}
+					v /= 4
+				}
 				names[j] = objName(v)
 				if v <= last {
 					sortedIn = false
@@ -220,6 +295,8 @@ func runFP(w *rec.Writer, c fpCase) {
 				last = v
 			}
 			switch ch.Kind {
+			case 3:
+				src <- &iterator.Msg{Iter: condIter(ch.Vals)}
 			case 0:
 				src <- &iterator.Msg{Iter: storage.NewStaticIterator[string](names)}
 			case 1:
@@ -268,6 +345,9 @@ loop:
 				break loop
 			}
 			if m.Err != nil {
+				if os.Getenv("C02_VERBOSE") != "" {
+					fmt.Fprintf(os.Stderr, "FP error message: %v\n", m.Err)
+				}
 				if failed == 0 {
 					failed = 1
 				}
